@@ -437,7 +437,7 @@ impl IntPartitionImpl {
 
     //@ begin src/util/partitions.rs :: impl IntPartitionImpl :: fn find
     //@ rw R16 /-> usize/-> (r: usize)/
-    //@ rw R14 /^(\s*)(self\.root_index\(a\))$/\1let __r = \2;\n\1__r/
+    //@ rw R14 /^([ \t]*)(self\.root_index\(a\))$/\1let __r = \2;\n\1__r/
     fn find(&mut self, a: usize) -> (r: usize)
         requires old(self).wf(), a < usize::MAX
         ensures final(self).wf(), r == old(self).srep(a as int),
